@@ -523,36 +523,6 @@ func checkLaws(op *Op, in shaping.Input, textCopy []rune, featCopy []shaping.Fon
 		}
 	}
 
-	// --- face
-	faces := map[*font.Face]bool{}
-	for i, o := range out {
-		faces[o.Face] = true
-		if o.Face == nil {
-			add("face-nil", "run %d [%d,%d) has a nil Face", i, o.RunStart, o.RunEnd)
-			continue
-		}
-		hint := o.Script
-		if !split || !m.spec.WithScript {
-			hint = 0 // SetScript is never called: the Fontmap keeps its initial hint
-		}
-		all := true
-		for k := o.RunStart; k < o.RunEnd; k++ {
-			r := in.Text[k]
-			if ignorable(r) {
-				continue
-			}
-			all = false
-			if want := m.pick(hint, r); want != o.Face {
-				add("face", "run %d [%d,%d) script %s has face %s but F(%s,%U)=%s for the rune at %d", i, o.RunStart, o.RunEnd, o.Script, faceName(o.Face), hint, r, faceName(want), k)
-				break
-			}
-		}
-		if all {
-			st.ignOnlyRuns++
-		}
-	}
-	st.faces = len(faces)
-
 	// --- Fontmap protocol: ResolveFace once, in order, for every rune that may
 	// select a font; with script support, under SetScript(run.Script).
 	scriptAt := func(k int) language.Script {
@@ -563,13 +533,11 @@ func checkLaws(op *Op, in shaping.Input, textCopy []rune, featCopy []shaping.Fon
 		}
 		return 0
 	}
+	hintAt := map[int]language.Script{} // hint in force when ResolveFace was called for the rune at a position
 	if op.API != "SplitByFontGlyphs" {
 		p := in.RunStart
 		for _, e := range m.ev {
 			if e.set {
-				if !split {
-					add("fontmap/setscript-unexpected", "SetScript called by %s", op.API)
-				}
 				continue
 			}
 			q := p
@@ -592,6 +560,7 @@ func checkLaws(op *Op, in shaping.Input, textCopy []rune, featCopy []shaping.Fon
 				p = -1
 				break
 			}
+			hintAt[q] = e.hint
 			p = q + 1
 		}
 		if p >= 0 {
@@ -603,6 +572,39 @@ func checkLaws(op *Op, in shaping.Input, textCopy []rune, featCopy []shaping.Fon
 			}
 		}
 	}
+	// --- face
+	faces := map[*font.Face]bool{}
+	for i, o := range out {
+		faces[o.Face] = true
+		if o.Face == nil {
+			add("face-nil", "run %d [%d,%d) has a nil Face", i, o.RunStart, o.RunEnd)
+			continue
+		}
+		all := true
+		for k := o.RunStart; k < o.RunEnd; k++ {
+			r := in.Text[k]
+			if ignorable(r) {
+				continue
+			}
+			all = false
+			// Split with script support: the hint must be the run's script (the
+			// protocol law above checks that it was). Otherwise the Fontmap
+			// answers under whatever hint was in force at the call.
+			hint := o.Script
+			if !split || !m.spec.WithScript {
+				hint = hintAt[k]
+			}
+			if want := m.pick(hint, r); want != o.Face {
+				add("face", "run %d [%d,%d) script %s has face %s but F(%s,%U)=%s for the rune at %d", i, o.RunStart, o.RunEnd, o.Script, faceName(o.Face), hint, r, faceName(want), k)
+				break
+			}
+		}
+		if all {
+			st.ignOnlyRuns++
+		}
+	}
+	st.faces = len(faces)
+
 	return
 }
 
